@@ -55,8 +55,9 @@ REQUIRED_TRACE = {
     "exe:withheld:remembered", "exe:denied:fresh:guess", "exe:denied:fresh:noguess", "exe:zombie:fresh",
 }
 # result classes the real code must have produced during the replay
-REQUIRED_RESULTS = {"cmdline:list", "cmdline:ZombieProcess", "environ:dict", "exe:str", "exe:empty", "exe:ZombieProcess",
-                    "exe:AccessDenied", "cwd:str", "cwd:empty", "cwd:ZombieProcess", "name:str"}
+# (only classes the statement guarantees)
+REQUIRED_RESULTS = {"cmdline:list", "cmdline:ZombieProcess", "environ:dict", "exe:str", "exe:empty",
+                    "cwd:str", "cwd:empty", "name:str"}
 
 
 def consts(tier, kinds=ALL_KINDS):
@@ -506,6 +507,17 @@ def rerun_chunk(inps):
     return [record(ps, w, inp) for inp in inps]
 
 
+# deliberately wrong answers appended to every validation run: the binding
+# must reject them (an argument vector that lost its empty argument; an exe()
+# that forgot its answer)
+CANARIES = [
+    {"inp": {"kind": "cmdline", "raw": [97, 0, 0, 98, 0], "zombie": False}, "got": {"exc": "", "val": [[97], [98]]}},
+    {"inp": {"kind": "exe", "plan": [{"st": "ok", "target": [47, 121]}, {"st": "ok", "target": [47, 120]}],
+             "cmdstate": "ok", "raw": [], "files": []},
+     "got": [{"exc": "", "val": [47, 121]}, {"exc": "", "val": [47, 120]}]},
+]
+
+
 def judge(ctx, lines, name):
     """TLC evaluates the specification on every recorded line."""
     for l in [l for l in lines if "error" in l][:3]:
@@ -513,6 +525,8 @@ def judge(ctx, lines, name):
                      "%s raised on a record the kernel can present: %s (input %s)"
                      % (l["inp"]["kind"], l["error"], json.dumps(l["inp"])), {"line": l})
     lines = [l for l in lines if "got" in l]
+    nreal = len(lines)
+    lines = lines + CANARIES
     d = tlc.scratch()
     tf = os.path.join(d, "trace.ndjson")
     with open(tf, "w") as f:
@@ -538,6 +552,11 @@ def judge(ctx, lines, name):
         if len(cls_of.get(i, ())) != want and i not in rejected:
             raise core.Machinery("trace validation judged %d of %d answers of record %d (%s)"
                                  % (len(cls_of.get(i, ())), want, i, json.dumps(l["inp"])))
+    for i in range(nreal + 1, len(lines) + 1):
+        if rejected.pop(i, None) is None:
+            raise core.Machinery("trace validation accepted the deliberately wrong answer %s" % json.dumps(lines[i - 1]))
+        cls_of.pop(i, None)
+    lines = lines[:nreal]
     ctx.cov["traces_validated_against_impl"] += len(lines)
     nrej = 0
     for i in sorted(rejected):
@@ -568,7 +587,7 @@ def trace_validate(ctx, n):
     for kind in ("name", "exe"):
         ks = [l for l in lines if l["inp"]["kind"] == kind]
         if ks:
-            ctx.sample({"kind": "recorded trace line", "line": ks[len(ks) // 2]})
+            ctx.sample({"kind": "recorded trace line", "line": ks[len(ks) // 2]}, limit=5)
 
 
 def need(what, required, seen):
@@ -614,7 +633,8 @@ def check(ctx):
         "exe(): a DENIED link is outside the statement: AccessDenied, or the qualifying cmdline()[0] (remembered or not) are "
         "accepted; the only demand is that the error is not remembered",
         "name(): the kernel's name is at most 15 bytes; 'starts with' and the 15-byte rule are read on bytes, as stated",
-        "a zombie never comes back to life within one exe() plan; ZombieProcess for a zombie's exe()/cwd() as for its cmdline()",
+        "a zombie never comes back to life within one exe() plan; for a zombie's exe()/cwd() both ZombieProcess and '' are accepted "
+        "(the statement names ZombieProcess only for cmdline())",
     ]
     if ctx.replay_file:
         return replay_one(ctx, ctx.replay_file)
@@ -624,9 +644,9 @@ def check(ctx):
     need("input class", REQUIRED_ENUM, case_classes(cases))
     seen = run_cases(ctx, "enumerated-inputs", cases)
     need("result class", REQUIRED_RESULTS, seen)
-    for kind in ("cmdline", "environ", "link"):
-        ks = [cs for cs in cases if cs["inp"]["kind"] == kind]
-        ctx.sample({"kind": "enumerated " + kind, "case": ks[(2 * len(ks)) // 3]})
+    for cls in ("cmd:argv-empty-arg", "env:duplicate", "link:nul+deleted"):
+        ks = [cs for cs in cases if cs.get("out", {}).get("cls") == cls]
+        ctx.sample({"kind": "enumerated " + cls, "case": ks[len(ks) // 2]}, limit=5)
     trace_validate(ctx, 30000 if thorough else 4000)
 
 
